@@ -123,18 +123,35 @@ Definition rinv (s : rstate) : Prop := pool_eq s /\ rwf s.
 (* C12, second clause *)
 Definition avail_nonneg (s : rstate) : Prop := Forall (fun c => 0 <= cm_avail c) (r_camps s).
 
-(* the explicit guard of the partial theorem: no negative reward component anywhere *)
+(* what validation guarantees about every stored campaign (an invariant, not a hypothesis): no negative reward
+   component; plus the one modelled-interface assumption: bet amounts reported by RSYNCBET are non-negative *)
 Definition amt_nonneg (a : ramount) : Prop := 0 <= ra_main a /\ 0 <= ra_sub a /\ 0 <= ra_mainpct a /\ 0 <= ra_subpct a.
 Definition sguard (s : rstate) : Prop :=
   Forall (fun c => amt_nonneg (cm_amt c)) (r_camps s) /\ Forall (fun b => 0 <= rb_amount b) (r_bets s).
 Definition optnn (o : option Z) : Prop := match o with Some v => 0 <= v | None => True end.
+(* the only hypothesis about operations: the harness-derived bet amount of an RSYNCBET is not negative *)
 Definition oguard (o : rop) : Prop :=
   match o with
-  | RCreateCampaign _ _ _ _ _ _ _ _ _ _ (Some ra) _ _ _ =>
-      optnn (rp_main ra) /\ optnn (rp_sub ra) /\ optnn (rp_mainpct ra) /\ optnn (rp_subpct ra)
   | RSyncBet _ _ amt _ _ => 0 <= amt
   | _ => True
   end.
+
+Lemma opt_neg_false_nn o : opt_neg o = false -> optnn o.
+Proof. destruct o; cbn; [intros H; apply Z.ltb_ge in H; exact H|trivial]. Qed.
+
+(* CreateCampaignPayload.Validate (after the repair) refuses every negative component *)
+Lemma payload_valid_nonneg now st en cat ty at_ ra : payload_valid now st en cat ty at_ ra = true ->
+  optnn (rp_main ra) /\ optnn (rp_sub ra) /\ optnn (rp_mainpct ra) /\ optnn (rp_subpct ra).
+Proof.
+  unfold payload_valid. intros H.
+  destruct (en <=? st); [discriminate|]. destruct (en <=? now); [discriminate|].
+  destruct (negb (cat_type_ok cat ty)); [discriminate|].
+  destruct (opt_neg (rp_main ra)) eqn:E1; [discriminate|].
+  destruct (opt_neg (rp_sub ra)) eqn:E2; [discriminate|].
+  destruct (opt_neg (rp_mainpct ra)) eqn:E3; [discriminate|].
+  destruct (opt_neg (rp_subpct ra)) eqn:E4; [discriminate|].
+  repeat split; apply opt_neg_false_nn; assumption.
+Qed.
 
 Lemma opt_z_nonneg o : optnn o -> 0 <= opt_z o.
 Proof. destruct o; cbn; lia. Qed.
@@ -475,7 +492,8 @@ Proof.
   destruct (authorize s sg prom GK_CREATE total) as [grants|]; [|discriminate].
   destruct ra as [ra|]; [|discriminate].
   destruct (rp_unlock ra <? 0); [discriminate|].
-  destruct (negb (payload_valid (r_now s) st en cat ty at_ ra)); [discriminate|].
+  destruct (payload_valid (r_now s) st en cat ty at_ ra) eqn:EV; [|discriminate]. cbn [negb] in H.
+  apply payload_valid_nonneg in EV. destruct EV as (O1 & O2 & O3 & O4).
   destruct (total <? opt_z (rp_main ra) + opt_z (rp_sub ra)); [discriminate|].
   destruct (PREC <=? opt_z (rp_mainpct ra) + opt_z (rp_subpct ra)); [discriminate|].
   destruct (negb (validate_campaign cat ty at_ ra cn)); [discriminate|].
@@ -485,7 +503,7 @@ Proof.
   split; [|split; [|split]].
   - repeat split; cbn; try assumption. apply Forall_snoc; [exact W1|cbn; exact Hp].
   - intros A. unfold avail_nonneg. cbn. apply Forall_snoc; [exact A|unfold cm_avail; cbn; lia].
-  - cbn. intros (O1 & O2 & O3 & O4) (G1 & G2). split; cbn; [|exact G2].
+  - intros _ (G1 & G2). split; cbn; [|exact G2].
     apply Forall_snoc; [exact G1|]. unfold amt_nonneg. cbn. repeat split; apply opt_z_nonneg; assumption.
   - intros _ _ P. unfold pool_eq. proj_simpl. rewrite camps_sum_snoc. unfold cm_avail. cbn [cm_total cm_withdrawn cm_spent].
     rewrite (fund_pool_get _ _ _ _ EF Hp).
@@ -682,7 +700,7 @@ Proof.
   destruct (rstep_ok s o W) as (W' & A' & _). apply IH; [exact W'|exact (A' A)].
 Qed.
 
-(* (a), partial: under the guard "no negative reward component" the pool balance equals the sum of availables *)
+(* (a): the pool balance equals the sum of availables; the only hypothesis about operations is oguard (RSYNCBET amounts) *)
 Lemma rrun_pool_partial ops : forall s, Forall oguard ops -> rinv s -> sguard s ->
   rinv (rrun s ops) /\ sguard (rrun s ops).
 Proof.
@@ -690,6 +708,15 @@ Proof.
   inversion G as [|? ? Go Gr]; subst. rewrite rrun_cons.
   destruct (rstep_ok s o W) as (W' & _ & S' & P').
   apply IH; [exact Gr|split; [exact (P' Go S P)|exact W']|exact (S' Go S)].
+Qed.
+
+(* the full invariant of C12's first clause: pool equation + well-formedness + "stored components are not negative" *)
+Definition cinv (s : rstate) : Prop := pool_eq s /\ rwf s /\ sguard s.
+
+Lemma rrun_pool ops : forall s, Forall oguard ops -> cinv s -> cinv (rrun s ops).
+Proof.
+  intros s G (P & W & S). destruct (rrun_pool_partial ops s G (conj P W) S) as ((P' & W') & S').
+  split; [exact P'|split; [exact W'|exact S']].
 Qed.
 
 Lemma rinit_wf bk t l : rwf (rinit bk t l).
@@ -700,9 +727,8 @@ Proof.
   intros H. split; [split; [exact H|apply rinit_wf]|]. split; [split; constructor|constructor].
 Qed.
 
-(* (a), refuted on the faithful model: a campaign with a negative main-account component next to a positive
-   subaccount component passes CreateCampaignPayload.Validate and SignUpReward.ValidateCampaign; one grant pays
-   10 out of the pool while the campaign books 5 as spent. *)
+(* the history that refuted the pool equation before the repair of CreateCampaignPayload.Validate (finding D7, /repo
+   commit f6ab6fd): a sign-up campaign with main = -5 next to sub = 10.  Kept as a regression witness. *)
 Definition wit_tk : ticket := {| tk_signer := 0; tk_exp := 100000 |}.
 Definition wit_state : rstate := rinit [(0, 1000000); (1, 1000000)] 100 0.
 Definition wit_ops : list rop :=
@@ -713,18 +739,6 @@ Definition wit_ops : list rop :=
       true 0 None;
     RGrant 1 wit_tk 0 0 true {| ky_ignore := true; ky_approved := false; ky_id := -100 |} 1 0 0 (-1);
     REnd ].
-
-Lemma wit_outcomes : map snd (map (rstep (rrun wit_state (firstn 3 wit_ops))) [nth 3 wit_ops REnd]) = [ROk] /\
-  bget (r_bank (rrun wit_state wit_ops)) REWARDPOOL = 990 /\
-  camps_sum (r_camps (rrun wit_state wit_ops)) = 995.
-Proof. vm_compute. repeat split; reflexivity. Qed.
-
-Lemma pool_refuted : exists s ops, rinv s /\ ~ rinv (rrun s ops).
-Proof.
-  exists wit_state, wit_ops. split.
-  - split; [vm_compute; reflexivity|apply rinit_wf].
-  - intros (P & _). vm_compute in P. discriminate P.
-Qed.
 
 (* ---- (c) a reward uid is granted at most once ------------------------------------------------------------------- *)
 Lemma find_reward_none l uid : existsb (fun r => rw_uid r =? uid) l = false -> find_reward l uid = None.
@@ -865,15 +879,8 @@ Proof.
   rewrite Z.eqb_refl. destruct (cm_promoter c =? REWARDPOOL) eqn:EQ; [apply Z.eqb_eq in EQ; unfold REWARDPOOL in EQ; lia|lia].
 Qed.
 
-Lemma pool_refuted_strong : exists s ops, rinv s /\ sguard s /\ avail_nonneg s /\ ~ pool_eq (rrun s ops).
-Proof.
-  exists wit_state, wit_ops. destruct (rinit_inv [(0, 1000000); (1, 1000000)] 100 0 eq_refl) as (I & G & A).
-  split; [exact I|]. split; [exact G|]. split; [exact A|].
-  intros P. vm_compute in P. discriminate P.
-Qed.
-
 (* ---- concrete histories used as non-vacuity witnesses ------------------------------------------------------------ *)
-(* the same history with a non-negative main component: every hypothesis of the partial theorem holds *)
+(* the same history with a non-negative main component *)
 Definition good_ops : list rop :=
   [ RBegin 101;
     RCreatePromoter 0 wit_tk 0 [(CAT_SIGNUP, 2)];
@@ -886,4 +893,25 @@ Definition good_update : rop := RUpdateCampaign 0 wit_tk 0 500 2000 true.
 Definition good_withdraw : rop := RWithdraw 0 wit_tk 0 300 0.
 
 Lemma good_ops_guard : Forall oguard (good_ops ++ [good_grant; good_update; good_withdraw; REnd]).
+Proof. repeat constructor; cbn; lia. Qed.
+
+Lemma rinit_cinv bk t l : bget bk REWARDPOOL = 0 -> cinv (rinit bk t l).
+Proof. intros H. destruct (rinit_inv bk t l H) as ((P & W) & S & _). split; [exact P|split; [exact W|exact S]]. Qed.
+
+Lemma rrun_pool_genesis bk t l ops : bget bk REWARDPOOL = 0 -> Forall oguard ops ->
+  bget (r_bank (rrun (rinit bk t l) ops)) REWARDPOOL = camps_sum (r_camps (rrun (rinit bk t l) ops)).
+Proof. intros H G. destruct (rrun_pool ops _ G (rinit_cinv bk t l H)) as (P & _). exact P. Qed.
+
+(* a bet-bonus history: percentage campaign, a won main-market bet reported by RSYNCBET, one grant *)
+Definition bonus_ops : list rop :=
+  [ RBegin 101;
+    RCreatePromoter 0 wit_tk 0 [];
+    RCreateCampaign 0 wit_tk 7 100000 0 0 1000 CAT_BET_DISCOUNT RT_BET_DISCOUNT AT_PERCENTAGE
+      (Some {| rp_main := None; rp_sub := None; rp_unlock := 10; rp_mainpct := Some (PREC / 10); rp_subpct := Some (PREC / 4) |})
+      true 0 (Some (Some 500));
+    RSyncBet 3 1 2000 BR_WON true ].
+Definition bonus_grant : rop :=
+  RGrant 0 wit_tk 9 7 true {| ky_ignore := false; ky_approved := true; ky_id := 1 |} 1 0 0 3.
+
+Lemma bonus_ops_guard : Forall oguard (bonus_ops ++ [bonus_grant]).
 Proof. repeat constructor; cbn; lia. Qed.
